@@ -7,6 +7,8 @@ import (
 	"io"
 	"net"
 	"net/http"
+	"os"
+	"path/filepath"
 	"sort"
 	"strings"
 	"time"
@@ -43,7 +45,8 @@ type opRec struct {
 	ver        int // target version index
 	kind       int
 	parkCbs    bool
-	start, end int // global step numbers (end = -1 while running)
+	shutErr    bool // (valid reloads) the shutdown callback of the instance being replaced reports an error: the reload has succeeded all the same
+	start, end int  // global step numbers (end = -1 while running)
 	ok         bool
 	err        string
 }
@@ -76,6 +79,11 @@ type reloadRig struct {
 	st  *sim.Stream
 	two bool // two listen addresses
 	tls bool // the sites are HTTPS sites (self-signed): every client is a crypto/tls client
+
+	// the Casketfile is one import line and never changes; what changes from reload to reload is
+	// the imported file (what a configuration does is not a function of its top-level text)
+	viaImport  bool
+	importFile string
 
 	vers     []verSpec
 	ops      []*opRec
@@ -185,6 +193,16 @@ func runReload(c *sim.Ctl) {
 	r.faults = st.Draw(2) == 1
 	r.tls = st.Draw(4) == 0
 	c.Params["tls"] = r.tls
+	if st.Draw(4) == 0 {
+		dir, err := os.MkdirTemp("", "sim-reload-")
+		if err != nil {
+			panic(err)
+		}
+		defer os.RemoveAll(dir)
+		r.viaImport, r.importFile = true, filepath.Join(dir, "sites.conf")
+		c.Probe("configuration-in-an-imported-file")
+	}
+	c.Params["via_import"] = r.viaImport
 	nops := 1 + st.Draw(6)
 	nclients := 2 + st.Draw(9)
 	c.MaxSteps = 600
@@ -212,7 +230,7 @@ func runReload(c *sim.Ctl) {
 			kind = 1 + st.Draw(7)
 		}
 		r.vers = append(r.vers, r.genVersion(k, kind))
-		r.ops = append(r.ops, &opRec{idx: k, ver: k, kind: kind, start: -1, end: -1, parkCbs: st.Draw(2) == 0})
+		r.ops = append(r.ops, &opRec{idx: k, ver: k, kind: kind, start: -1, end: -1, parkCbs: st.Draw(2) == 0, shutErr: kind == rkOK && st.Draw(5) == 0})
 	}
 	texts := make([]string, len(r.vers))
 	for i := range r.vers {
@@ -241,6 +259,15 @@ func runReload(c *sim.Ctl) {
 	c.AddSource(r.events)
 	c.AddInvariant(r.invariant)
 
+	input := func(text string) casket.Input {
+		if !r.viaImport {
+			return w.Input(text)
+		}
+		if err := os.WriteFile(r.importFile, []byte(text), 0644); err != nil {
+			panic(err)
+		}
+		return w.Input("import " + r.importFile + "\n")
+	}
 	// the operator
 	go func() {
 		for _, op := range r.ops {
@@ -251,7 +278,7 @@ func runReload(c *sim.Ctl) {
 			var err error
 			if op.idx == 0 {
 				var in *casket.Instance
-				in, err = casket.Start(w.Input(texts[0]))
+				in, err = casket.Start(input(texts[0]))
 				if err != nil {
 					panic(fmt.Sprintf("harness: initial start failed: %v\n%s", err, texts[0]))
 				}
@@ -266,7 +293,7 @@ func runReload(c *sim.Ctl) {
 						return fmt.Errorf("injected: too many open files")
 					}
 				}
-				in, err = r.inst.Restart(w.Input(texts[op.ver]))
+				in, err = r.inst.Restart(input(texts[op.ver]))
 				w.N.FileErr = nil
 				if err == nil && op.kind == rkPanic {
 					// a reload that blew up must not be reported as done; the running instance stays the one it was
@@ -290,7 +317,8 @@ func runReload(c *sim.Ctl) {
 				if op.kind == rkOK {
 					c.Violate("C07/valid-reload-failed", rkNames[op.kind], "reload %d to a valid configuration failed: %v", op.idx, err)
 				} else {
-					panic(fmt.Sprintf("harness: reload of kind %s unexpectedly succeeded:\n%s", rkNames[op.kind], texts[op.ver]))
+					// (never seen on the unchanged tree; a variant that skips the reload of an "unchanged" Casketfile does it)
+					c.Violate("C07/unloadable-configuration-reported-as-loaded", rkNames[op.kind], "reload %d to a configuration that cannot be loaded (%s) returned no error; via import: %v", op.idx, rkNames[op.kind], r.viaImport)
 				}
 			}
 			if op.idx > 0 {
@@ -416,6 +444,10 @@ func (r *reloadRig) callback(label, kind string) error {
 			c.Fault("startup-callback-fails")
 			return fmt.Errorf("injected startup failure")
 		}
+		if kind == "shutdown" && op.shutErr && label != r.vers[op.ver].label {
+			c.Fault("shutdown-callback-of-the-replaced-instance-fails")
+			return fmt.Errorf("injected shutdown-callback failure")
+		}
 		if kind == "restart" && op.kind == rkRestartCb {
 			c.Fault("restart-callback-fails")
 			return fmt.Errorf("injected restart-callback failure")
@@ -432,6 +464,11 @@ func (r *reloadRig) probe(label string, w http.ResponseWriter, req *http.Request
 			r.c.Probe("handler-parked-during-reload")
 		}
 		r.c.Park("hook.handler/"+id, "handler:"+id)
+		if req.Context().Err() != nil {
+			// what the context-aware handlers (proxy, fastcgi, websocket) do when their request is
+			// cancelled: they give up. Only the client going away cancels a request; a reload does not.
+			return 499, nil
+		}
 	}
 	w.Header().Set("Content-Type", "text/plain")
 	fmt.Fprintf(w, "tok:%s:%s", label, id)
